@@ -23,21 +23,21 @@ checks = {
  "C09": ("fault_enumeration", "fault enumeration (every cut offset, flag value, bit flip, length lie) with a fault-aware backend and non-OK / prefix / well-formedness oracles",
          "For each base scenario every single fault of the listed kinds is injected, one per execution (quick ~130k, thorough ~1.6M faulted executions): the client must see a non-OK outcome, the backend never a complete-looking message the client did not finish, the error must be well formed where the protocol allows it, ServeHTTP must return. Exhaustive per base scenario for cut offsets and flag values; base scenarios are sampled.", "5/C09"),
  "C10": ("exploration", "pool-capacity hook (largest pooled buffer per request) + self-calibrated size boundaries in a serial, quiet process",
-         "900/9000 scenarios (limits 1 KiB..1 MiB; sizes L-1..100L; gzip ratios to 1000:1; JSON-expanding messages; large error bodies and end frames; both directions), each run first under a 1 GiB limit to observe every representation size and then under L: everything fits => success; size-affected failure => resource_exhausted; the largest buffer the pool hooks see during the request must stay <= 4L+64 KiB. TotalAlloc deltas are recorded only (heap shared with the harness).", "5/C10"),
+         "900/9000 scenarios (limits 1 KiB..1 MiB; sizes L-1..100L; gzip ratios to 1000:1; JSON-expanding messages; large and compressed error bodies and end frames; frames that merely announce a huge length; incompressible payloads sent as gzip; forced re-encoding and single-target strata; both directions), each run first under a 1 GiB limit to observe every representation size and then under L: everything fits => success; size-affected failure => resource_exhausted; the largest buffer the pool hooks see during the request - and the capacity of every buffer handed out, measured again when the request is over - must stay <= 4L+64 KiB. TotalAlloc deltas are recorded only (heap shared with the harness).", "5/C10"),
  "C11": ("fault_enumeration", "recover()/journal/watchdog monitors and net/http framing assertions over structure-aware hostile inputs and hostile backend scripts",
          "60k (quick) / 1.2M (thorough) executions of ServeHTTP with requests mutated by 0..4 hostile operators and backends following hostile scripts; any panic that is not the backend's own scripted panic, any process death, any response net/http could not frame (status range, Content-Length vs bytes, body on 204/304), a second response head, I/O after return or a double dispatch is a violation. Says nothing about inputs outside the generator's reach.", "5/C11"),
  "C12": ("exploration", "exact-arithmetic reference grammars (math/big) over boundary-enumerated timeout strings",
          "20k/300k (client form, target, timeout string) cases incl. every digit-count and unit boundary (thorough: every 1..3 digit gRPC value x unit); backend-observed deadline compared with the client's in exact rational arithmetic: never extended, short by less than the target encoding's rounding unit, absent stays absent, valid never rejected, malformed rejected with 4xx before dispatch.", "5/C12"),
  "C13": ("exploration", "deep snapshot equality of request and response across the transcoder on the no-conversion and unknown-endpoint paths",
-         "20k/300k requests whose triple the service accepts (pass-through) or whose path matches nothing (unknown-endpoint handler), with arbitrary headers, queries, bodies and lengths; the downstream handler's view must equal a snapshot taken before ServeHTTP, and the client must receive exactly what the handler wrote.", "5/C13"),
+         "20k/300k requests whose triple the service accepts (pass-through) or whose path matches nothing (unknown-endpoint handler), with arbitrary headers, queries, bodies and lengths (including the late not-found of a REST-only service's unbound method); the downstream handler's view must equal a snapshot taken before ServeHTTP, and the client must receive exactly what the handler wrote.", "5/C13"),
  "C18": ("fault_enumeration", "invocation counters, context capture and after-return I/O flags over an enumeration of rejection classes and exit paths",
-         "18 rejection classes x client forms x random configurations and 5 exit-path classes (30k/600k executions, race-detector build): at most one dispatch, none for rejected requests, handler context cancelled and no reads/writes after ServeHTTP returned.", "5/C18"),
+         "19 rejection classes (incl. a leading message that decodes but cannot be routed, and Connect markers on non-GET requests with and without a content-type) x client forms x random configurations and 5 exit-path classes (30k/600k executions): at most one dispatch, none for rejected requests, handler context cancelled and no reads/writes after ServeHTTP returned.", "5/C18"),
  "C14": ("exploration", "Go race detector + pool ownership automaton (poison/quarantine) + solo-vs-concurrent differential + porcupine on the pool history",
-         "Race-detector build. 90/1800 rounds: W1 = 32 marker-carrying RPCs (mixed forms, codecs, compressions, some faulty) run alone and then from 2/8/32 goroutines on one Transcoder with yields at the hook points - outcomes must equal the solo outcomes, no foreign marker; W2 = full-duplex streams whose handler reads and writes from two goroutines while the request stream is fault-free or breaks at a chosen message - delivered frames must be the handler's, intact, with one end. The process's own GORACE log is parsed at the end (reports de-duplicated by innermost vanguard frame pair); the pool hooks run an ownership automaton with poison-on-release and quarantine; thorough additionally checks recorded pool histories with porcupine.", "5/C14"),
+         "Race-detector build. 90/1800 rounds: W1 = 32 marker-carrying RPCs (mixed forms, codecs, compressions, some faulty) run alone and then from 2/8/32 goroutines on one Transcoder with yields at the hook points - outcomes must equal the solo outcomes, no foreign marker; W2 = full-duplex streams whose handler reads and writes from two goroutines while the request stream is fault-free or breaks at a chosen message - delivered frames must be the handler's, intact, with one end; W3 = error paths (tiny limits with chunked handler writes, messages failing inside the decompressor, cut bodies) one RPC at a time under the automaton. The process's own GORACE log is parsed at the end (reports de-duplicated by innermost vanguard frame pair); the pool hooks run an ownership automaton (double release of buffers and (de)compressors, hand-out of a live object, write after release detected by whole-array poison checked at the next hand-out and by a quarantine); thorough additionally checks recorded pool histories with porcupine.", "5/C14"),
  "C15": ("exploration", "fresh-vs-used differential over hostile histories with poison-on-release pool hooks and reuse attribution",
          "200/4000 histories of 1..80 hostile requests (mutations, corrupt gzip, limit breaches, backend panics, sizes around the 8 MiB pool cut-off) on one Transcoder under GOMAXPROCS=1, each followed by 10 probe RPCs whose canonical outcomes must equal those on never-used Transcoders; released buffers are poisoned by the pool hook and the hooks prove that probes really received buffers and (de)compressors last used by failed requests (coverage minimum).", "5/C15"),
  "C16": ("exploration", "flush accounting at the recorder + request look-ahead monitor in memory; strict ping-pong over real h2c (bounded progress)",
-         "1200/20000 streaming scenarios (3 client forms x 3 targets x codec/compression pairs x rounds 1..100 x sizes 0..70 KiB x stream shapes): in memory, when the handler's Write of message k returns the client-side recorder must hold frame k followed by a Flush, and request bytes of message j may only be pulled once the handler has obtained messages before j; every 10th case runs a strict ping-pong over a real HTTP/2 (h2c) connection, where all rounds must complete (stalls confirmed by an isolated re-run).", "5/C16"),
+         "1200/20000 streaming scenarios (3 client forms x 3 targets x codec/compression pairs x rounds 1..100 x sizes 0..70 KiB incl. zero-length payloads x handlers reading exact sizes or through a 32 KiB buffer x stream shapes): in memory, when the handler's Write of message k returns the client-side recorder must hold frame k followed by a Flush, and request bytes of message j may only be pulled once the handler has obtained messages before j; every 10th case runs a strict ping-pong over a real HTTP/2 (h2c) connection, where all rounds must complete (stalls confirmed by an isolated re-run).", "5/C16"),
  "C17": ("exploration", "reference servability predicate (known refusal reasons) + probes of accepted configurations",
          "6k/120k generated configurations: valid bases with (in 60%) one injected reason to be refused out of 25 classes - NewTranscoder must return an error and no transcoder for those, and for accepted configurations every binding must be reachable through the URL rendered from its template and land on the declared method, exact selectors must bind only the named method, per-service options must beat defaults on the wire.", "5/C17"),
  "C19": ("exploration", "GET safety oracle + GET-vs-POST decode equivalence + self-calibrated URL-length boundary",
